@@ -57,7 +57,13 @@ func gen(p *simrt.Tape) any {
 	epoch := slot * time.Duration(pl.SlotsPerEpoch)
 	period := epoch * time.Duration(pl.EpochsPerPeriod)
 	// start: first period of the chain (before/at genesis, early), or shortly before / at / after a period boundary
-	switch p.Pick(6) {
+	prepStart := false
+	switch p.Pick(7) {
+	case 6:
+		// inside the one epoch that is exactly the preparation lead (5 epochs) before the
+		// boundary: only the start-up path can schedule the next period; run across the boundary
+		pl.StartOffset = period - 5*epoch + time.Duration(p.Intn(int(epoch/time.Millisecond)))*time.Millisecond
+		prepStart = true
 	case 0:
 		pl.StartOffset = -slot
 	case 1:
@@ -76,6 +82,9 @@ func gen(p *simrt.Tape) any {
 		startSlot = uint64(pl.StartOffset / slot)
 	}
 	pl.HorizonSlots = startSlot + pl.SlotsPerEpoch + uint64(p.Range(2, 6))
+	if prepStart {
+		pl.HorizonSlots = pl.EpochsPerPeriod*pl.SlotsPerEpoch + uint64(p.Range(1, 3))
+	}
 	for i := 0; i < 4; i++ {
 		pl.HeadLatencyMs = append(pl.HeadLatencyMs, []int{400, 1000, 3000}[p.Pick(3)])
 	}
@@ -203,6 +212,35 @@ func oracle(rec *syssim.Record, out *sim.Outcome) *simrt.Violation {
 		for _, f := range rec.H.Fetches {
 			if f.Kind == "sync" && f.Inc == inc.N {
 				last[f.Epoch/pl.EpochsPerPeriod] = f
+			}
+		}
+		// a period whose window the incarnation lives through must have been prepared at all:
+		// without this clause a period for which vouch never asked for duties would expect nothing
+		for period := uint64(0); period*periodSlots <= pl.HorizonSlots+1; period++ {
+			if _, fetched := last[period]; fetched {
+				continue
+			}
+			first := period * periodSlots
+			lo := uint64(0)
+			if first > 0 {
+				lo = first - 1
+			}
+			member := -1
+			for _, v := range rec.Model.SortedOurs() {
+				if _, in := rec.Model.SyncTable(period * pl.EpochsPerPeriod)[v]; in && !(pl.HideSync && pl.HideSyncAccount == v) {
+					member = v
+					break
+				}
+			}
+			if member < 0 {
+				continue
+			}
+			for s := lo; s+2 <= (period+1)*periodSlots; s++ {
+				due := slotStart(s) + pl.MaxSyncMessageDelay
+				if slotStart(s) < inc.Start+slotDur || due+2*time.Second > endOfRun || (inc.End >= 0 && inc.End < due+2*time.Second) {
+					continue
+				}
+				return Viol("C15/period-never-prepared", "incarnation %d (alive from %v) never asked for the sync committee duties of period %d, of which validator %d is a member; slot %d of its window passed without a message", inc.N, inc.Start, period, member, s)
 			}
 		}
 		var periods []uint64
